@@ -100,6 +100,9 @@ def programs(rng, quick):
             if w.sum() > 4:
                 nj("_ws2dwcvp", lab, _ws2dwcvp, yc, w, 0.9, sr, bool(rng.getrandbits(1)))
             lz("ws2doptvplc_tyx", lab, ws2doptvplc_tyx, yi.reshape(n, 1, 1), 0.9, ND)
+            # many rows: the compiled kernel runs its row loop in parallel (prange), the interpreter one row after the other
+            cube = np.stack([np.where(yi == ND, ND, yi + 37 * r - 11 * c_) for r in range(24) for c_ in range(2)], axis=1).reshape(n, 24, 2).astype("int16")
+            lz("ws2doptvplc_tyx", lab + ",rows=24", ws2doptvplc_tyx, cube, 0.9, ND)
             gu("ws2dgu", lab, ops.ws2dgu, (y, rng.choice([0.0, 0.5, 10.0, 1e3]), ND), [((n,), "int16")])
             if n >= 5:      # cells the fixed and GCV kernels must mask: NaN, +inf, -inf
                 for bad in (np.nan, np.inf, -np.inf):
